@@ -5,5 +5,6 @@ cd /verif
 for t in gcc clang java python3; do command -v $t >/dev/null || { echo "missing $t"; exit 2; }; done
 test -f /opt/veriftools/tla/tla2tools.jar
 mkdir -p build evidence replays
+javac -cp /opt/veriftools/tla/tla2tools.jar -d spec spec/java/GF2.java
 for c in small_sse_cache_seq; do bin/build.sh $c; done
 echo setup ok
